@@ -446,6 +446,65 @@ PROPS["C02"] = {
         "assumptions": ["cols >= 2", "no TAB / control character inside prompt, line or hint"],
     }
 
+PROPS["C03"] = {
+        "module": "Rl.Props.C03",
+        "targets": [{"name": "lb", "gen": "lb", "header_tokens": 5}],
+        "shards": {"quick": 16, "thorough": 16},
+        "trivial_impl_regex": r"",
+        "rule": "exhaustive (mode i: every op applied to the same initial state): all buffers of <=3 chars (thorough <=4) over the "
+                "10-character sub-alphabet {a Z _ , space LF e-acute(2B) CJK(3B,wide) emoji(4B) U+0301} x every char-boundary cursor x "
+                "the full op battery (every public LineBuffer method; 3 word definitions x 3 anchors, 4 char-search kinds x the "
+                "buffer's characters + an absent one, every Movement for copy/kill, indent/dedent amounts {0,1,2,33}, counts "
+                "{0,1,2,3,(4),65535}, explicit-index primitives at every boundary pair plus contract violations) with capacity 4096, and "
+                "the capacity-sensitive ops (update/insert/yank/yank_pop/transpose_chars/edit_word) with capacities {len-1,len,len+1,len+3}; "
+                "structured 3- and 5-line buffers; random multi-line buffers (alphabet adds tab, CR, ZWJ, sharp-s, U+3000, NBSP) with op "
+                "sequences <=30 in sequence mode (notifications compose, capacity growth tracked). Oracle: the five C03 conjuncts "
+                "evaluated in Lean on the implementation's own observations.",
+        "exhaustive": {"quick": True, "thorough": True},
+        "trusted_base": [
+            "unicode-segmentation modelled by Rl.uaxSeg over the gcb column of the charinfo header (agreement is part of this correspondence on the alphabet)",
+            "char::is_alphanumeric / is_whitespace / to_uppercase / to_lowercase / unicode-width taken from the implementation via charinfo; str::to_lowercase modelled per char (final-sigma rule not modelled; sigma not in the alphabet)",
+            "String::capacity(): with_capacity gives exactly the requested capacity and growth follows RawVec::grow_amortized (max(2*cap, needed, 8)); observable only through insert/yank/update refusing",
+            "Layout::width only in GraphemeClusterMode::WcWidth (sum of char widths); u16 column arithmetic modelled in Nat",
+            "move_to_line_up/down take a crate-private Layout: reached through the add-only hook `pub use layout::{Layout, Position}` under cfg(kkawakam_rustyline_verif)",
+            "can_growth(true) is pub(crate): the harness only reaches fixed-capacity buffers; the model keeps the canGrow field for the editor model"],
+        "level_text": "Lean theorems about the LineBuffer model (per operation: no panic from a well-formed state, cursor stays on a boundary, "
+                      "notifications replay old text to new text, motions/copies pure, capacity respected), for every lawful segmenter; model tied to "
+                      "/repo by an exhaustive + random differential run of every public LineBuffer method with a recording listener.",
+        "level_note": "Proved for EVERY public operation and every state: notifications replay old text to new text (C03_notifications_replay); "
+                      "motions/queries/copies leave text and capacity alone and notify nothing (C03_motion_copy_pure). Proved per operation "
+                      "(every argument value incl. counts 0 and 65535, every word definition/anchor/char search/movement): no panic from a "
+                      "well-formed state + cursor on a character boundary, for every public method except indent and "
+                      "insert_str (C03_opCovered); capacity clause for insert/yank/update; assembled in C03_op_total_wf_replay_partial. "
+                      "indent is covered for totality by the correspondence + oracle only. insert_str with an index "
+                      "before the cursor is a known finding (C03_insertStr_counterexample; C03_insertStr_total_wf holds for idx >= pos).",
+        "unproved": ["C03_op_total_wf_replay_statement (full; false for insert_str: C03_insertStr_counterexample)"],
+        "assumptions": [],
+    }
+
+PROPS["C04"] = {
+        "module": "Rl.Props.C04",
+        "targets": [{"name": "lb4", "gen": "lb4", "header_tokens": 5}],
+        "shards": {"quick": 16, "thorough": 16},
+        "trivial_impl_regex": r"",
+        "rule": "same enumeration as C03 restricted to motions, kills, copies, indent, edit_word, transpose_*, every Movement with counts "
+                "1..4 and 65535, plus structured 3- and 5-line buffers and random multi-line op sequences; oracle: the declarative "
+                "targets/spans of Rl/Spec/Motion.lean evaluated on the implementation's observations.",
+        "exhaustive": {"quick": True, "thorough": True},
+        "trusted_base": [
+            "as C03 (segmenter, Unicode predicates from the implementation, WcWidth)",
+            "the declarative spec Rl/Spec/Motion.lean is the reading of the property text (DESIGN.md 7.1 reading decisions)"],
+        "level_text": "Declarative motion/span spec as executable oracle on the implementation plus Lean theorems relating model targets to the spec.",
+        "level_note": "Proved: character motions = whole clusters (forward and backward); the word loops of next_word_pos (anchors Start, "
+                      "AfterEnd; motion and kill/copy range) and prev_word_pos return exactly the declarative n-th word start/end or the text end; "
+                      "word kills/copies cover exactly [cursor, target); move_home/move_end = declarative line start/end. Char searches, "
+                      "line-wise spans, vertical motion, indent, edit_word, transpose_chars are checked by the oracle on the implementation only. "
+                      "Known findings: ViFirstPrint ranges, vi `e` with count > 1.",
+        "unproved": ["C04_word_target_beforeEnd_statement (refuted: C04_word_target_beforeEnd_counterexample, pinned by test::vi_cmd::e)",
+                     "C04_kill_is_span_statement", "C04_copy_is_span_statement", "C04_char_search_statement"],
+        "assumptions": [],
+    }
+
 # properties not (yet) claimed, with the reason (kept current; see DESIGN.md)
 NOT_APPLICABLE = {
 }
